@@ -365,8 +365,8 @@ fn exec(root: &Root, trace: &[Op], env_tag: &str) -> ExecOut {
 fn cause(abs: &Abs) -> &'static str {
     let dropped_resp = abs.status.contains(&Status::Dropped);
     match (dropped_resp, abs.sched_alive) {
-        (true, true) => "after-response-future-dropped",
-        (true, false) => "after-response-dropped-and-scheduler-dropped",
+        (true, true) => "dropped-response-future-never-returns-its-budget",
+        (true, false) => "dropped-response-and-scheduler-dropped",
         (false, false) => "after-scheduler-dropped",
         (false, true) => "plain",
     }
@@ -570,7 +570,7 @@ pub fn run_all(ctx: &Ctx, env_tag: &str, skip: bool) -> BReport {
             for x in v["violations"].as_array().cloned().unwrap_or_default() {
                 r.violations.push(Violation::new(
                     x["oracle"].as_str().unwrap_or(""),
-                    &format!("{}/io-threads-limit-1", x["key"].as_str().unwrap_or("")),
+                    x["key"].as_str().unwrap_or(""),
                     x["what"].as_str().unwrap_or("").to_string(),
                     x["case"].clone(),
                 ));
@@ -590,7 +590,7 @@ pub fn replay(_ctx: &Ctx, art: &Value) -> Outcome {
     let root: Root = serde_json::from_value(c["root_spec"].clone()).unwrap_or_else(|e| vcore::machinery_error(&format!("replay: bad root_spec: {e}")));
     let ops: Vec<Op> = serde_json::from_value(c["ops"].clone()).unwrap_or_else(|e| vcore::machinery_error(&format!("replay: bad ops: {e}")));
     let r = exec(&root, &ops, "replay (this process's env)");
-    let key = art["key"].as_str().unwrap_or("").trim_end_matches("/io-threads-limit-1").to_string();
+    let key = art["key"].as_str().unwrap_or("").to_string();
     out.violations = r.violations.into_iter().filter(|v| v.key == key).map(|mut v| {
         v.key = art["key"].as_str().unwrap_or("").to_string();
         v
